@@ -3,7 +3,7 @@ import os
 import sys
 import tempfile
 
-SRC = os.environ.get("PYMOCA_SRC", "/tmp/hunt_C20/src")
+SRC = os.environ.get("PYMOCA_SRC", "/repo/src")
 sys.path.insert(0, SRC)
 # private parse cache, so that runs against different checkouts do not interact
 os.environ["XDG_CACHE_HOME"] = tempfile.mkdtemp(prefix="c20_xdg_")
